@@ -267,6 +267,19 @@ def run(ctx):
         for clause, msg in check_malformed(text):
             part.violation(f"{clause}:bare:{text!r}", msg, {"kind": "malformed", "text": text})
         part.count("malformed_cases")
+    # characters that *look like* parts of a number and are not: typographic minus and dashes,
+    # a decimal comma, a middle dot, the multiplication sign of "1x10^3" - in the places where
+    # the real sign, point and exponent marker stand.  None of them is SVG number syntax.
+    for mark in ("\u2212", "\u2013", "\u2014", "\u2010", "\ufe63", "\uff0d", "\u00ad", "\uff0b",
+                 "\u00b7", "\uff0e", "\u066b", "\u00d7"):
+        for text in (mark + "5", "1e" + mark + "3", " " + mark + "2.5 ", "7" + mark + "5",
+                     mark + ".5e1", "1" + mark + "5e2"):
+            for unit in ("", "mm", "in", "%"):
+                for clause, msg in check_malformed(text.rstrip() + unit if unit else text):
+                    part.violation(f"{clause}:lookalike:{text!r}:{unit}", msg,
+                                   {"kind": "malformed", "text": text.rstrip() + unit if unit else text})
+                part.count("malformed_cases")
+                part.count("lookalike_cases")
     for msg in check_absent():
         part.violation("absent", msg, {"kind": "absent"})
     part.count("malformed_cases", 2)
